@@ -327,10 +327,11 @@ static int do_bindcheck(const vf::Args& a, const std::string& work) {
 	Engine eng(env); eng.emu.record_words = true;
 	CaseSpec c; std::vector<NamedProg> fc = family_c(); FamA fa(false, 0); FamB fb(false);
 	unsigned n = 0;
-	for (size_t p = 0; p < fc.size(); ++p) for (int v = 1; v <= 2; ++v) { c.version = v; set_combo(c, (unsigned)(p * 7 + v), true); if (build_c(env, c, fc[p])) { c.family = "bind"; eng.run(c); ++n; } }
-	for (uint64_t k = 0; k < fa.programs(1); k += 97) for (int v = 1; v <= 2; ++v) { c.version = v; set_combo(c, (unsigned)k, true); fa.build(env, c, (int)(k & 1), k % fa.programs(v)); eng.run(c); ++n; }
-	for (uint64_t jb = 0; jb < fb.jobs(); jb += 41) { set_combo(c, (unsigned)jb, true); fb.build(env, c, jb); eng.run(c); ++n; }
-	for (uint64_t i = 0; i < 40; ++i) for (int v = 1; v <= 2; ++v) { c.version = v; set_combo(c, (unsigned)(i * 5 + v), true); build_random(env, c, i); eng.run(c); ++n; }
+	const unsigned sub = SUBSET_PROFILE ? 12 : 1;   // the 2048-iteration build samples fewer programs (same code shapes, 128x the run time)
+	for (size_t p = 0; p < fc.size(); p += sub) for (int v = 1; v <= 2; ++v) { c.version = v; set_combo(c, (unsigned)(p * 7 + v), true); if (build_c(env, c, fc[p])) { c.family = "bind"; eng.run(c); ++n; } }
+	for (uint64_t k = 0; k < fa.programs(1); k += 97 * sub) for (int v = 1; v <= 2; ++v) { c.version = v; set_combo(c, (unsigned)k, true); fa.build(env, c, (int)(k & 1), k % fa.programs(v)); eng.run(c); ++n; }
+	for (uint64_t jb = 0; jb < fb.jobs(); jb += 41 * sub) { set_combo(c, (unsigned)jb, true); fb.build(env, c, jb); eng.run(c); ++n; }
+	for (uint64_t i = 0; i < 40; i += sub) for (int v = 1; v <= 2; ++v) { c.version = v; set_combo(c, (unsigned)(i * 5 + v), true); build_random(env, c, i); eng.run(c); ++n; }
 	{ DsEngine de{ eng.emu, eng.jit, eng.stack, eng.stack_size, eng.buf_size, {} }; std::string w; de.run(env.cache, 5, 3, w); }
 	std::set<uint32_t> ws(eng.emu.seen_words.begin(), eng.emu.seen_words.end());
 	std::vector<uint32_t> words(ws.begin(), ws.end());
